@@ -213,7 +213,7 @@ func TestMathSpecialTable(t *testing.T) {
 var mathRandom = harness.Register(&harness.Facet[mathCase]{
 	Name:     "math-generated",
 	Rule:     "rapid: function drawn uniformly, arguments from the boundary pool / halves / random bit patterns (0–4 arguments for max/min); non-trivial = any argument outside small positive integers or argument count ≠ 1; distinct by (function, argument bits)",
-	Quick:    12000,
+	Quick:    60000,
 	Thorough: 250000,
 	Gen: func(t *rapid.T) mathCase {
 		fn := rapid.SampledFrom(es5.MathNames).Draw(t, "fn")
@@ -352,7 +352,7 @@ func checkRel(c relCase) harness.Outcome {
 var mathRel = harness.Register(&harness.Facet[relCase]{
 	Name:     "math-relations",
 	Rule:     "rapid: a relation (odd/even symmetry, monotonicity on an ordered pair, inverse pairs exp/log sqrt/square tan/atan, pow vs repeated multiplication, atan2 quadrant) and one or two doubles from the boundary pool; tolerance 1e-12 relative (1e-9 for composed inverses); non-trivial = x is not a small integer; distinct by (relation, x, y)",
-	Quick:    4000,
+	Quick:    15000,
 	Thorough: 60000,
 	Gen: func(t *rapid.T) relCase {
 		rel := rapid.SampledFrom([]string{"odd", "even", "monotone", "inverse", "pow-int", "atan2-quadrant"}).Draw(t, "rel")
@@ -481,7 +481,7 @@ func checkCoerce(c coerceCase) harness.Outcome {
 var mathCoerce = harness.Register(&harness.Facet[coerceCase]{
 	Name:     "math-coercion-order",
 	Rule:     "rapid: function and 0..arity arguments (0–4 for max/min) each of kind number / numeric or junk string / object with logging valueOf / object with logging toString / undefined / null / boolean / object whose valueOf throws; oracle: conversion log is exactly the object arguments left to right up to the first throw, result is the model on the converted numbers; every case non-trivial; distinct by (function, argument kinds and values)",
-	Quick:    6000,
+	Quick:    20000,
 	Thorough: 80000,
 	Gen: func(t *rapid.T) coerceCase {
 		fn := rapid.SampledFrom(es5.MathNames).Draw(t, "fn")
@@ -521,7 +521,7 @@ type predCase struct {
 var predFacet = harness.Register(&harness.Facet[predCase]{
 	Name:     "isnan-isfinite",
 	Rule:     "rapid: isNaN/isFinite on numbers from the boundary pool, numeric and junk strings (with white space, hex, signs), booleans, null, undefined, objects with valueOf/toString; oracle: ToNumber model (9.3, 9.3.1); non-trivial = argument is not a number literal; distinct by (function, argument)",
-	Quick:    3000,
+	Quick:    10000,
 	Thorough: 40000,
 	Gen: func(t *rapid.T) predCase {
 		c := predCase{Fn: rapid.SampledFrom([]string{"isNaN", "isFinite"}).Draw(t, "fn")}
@@ -591,7 +591,7 @@ func show16(u []uint16) string { return harness.JSString16(u) }
 var encodeFacet = harness.Register(&harness.Facet[uriCase]{
 	Name:     "uri-encode",
 	Rule:     "rapid: encodeURI/encodeURIComponent on UTF-16 strings ≤12 units over ASCII (all reserved/unreserved/other punctuation, controls), Latin-1, BMP and astral alphabets, 10% with a lone surrogate inserted; oracle: Encode of 15.1.3 (URIError on lone surrogates) and the law decode(encode(s)) = s; non-trivial = the string has a character outside the function's unescaped set; distinct by (function, string)",
-	Quick:    8000,
+	Quick:    25000,
 	Thorough: 150000,
 	Gen: func(t *rapid.T) uriCase {
 		return uriCase{Fn: rapid.SampledFrom([]string{"encodeURI", "encodeURIComponent"}).Draw(t, "fn"), Units: units16WithLone(12).Draw(t, "units")}
@@ -719,7 +719,7 @@ func genEncoded(t *rapid.T) (string, string) {
 var decodeFacet = harness.Register(&harness.Facet[decodeCase]{
 	Name:     "uri-decode",
 	Rule:     "rapid: decodeURI/decodeURIComponent on percent-encoded texts built from random strings (each character raw or escaped as UTF-8, random hex case, reserved characters included) and one mutation of them (truncation, bad hex digit, dropped continuation, over-long form, encoded surrogate, value above U+10FFFF, lone continuation byte, stray %, 5/6-byte lead); oracle: Decode of 15.1.3 with the function's reserved set, URIError conditions; non-trivial = text contains a multi-byte escape, a reserved escape or a mutation; distinct by (function, text)",
-	Quick:    8000,
+	Quick:    25000,
 	Thorough: 150000,
 	Gen: func(t *rapid.T) decodeCase {
 		fn := rapid.SampledFrom([]string{"decodeURI", "decodeURIComponent"}).Draw(t, "fn")
@@ -788,7 +788,7 @@ func genEscText(t *rapid.T) []uint16 {
 var escFacet = harness.Register(&harness.Facet[escCase]{
 	Name:     "escape-unescape",
 	Rule:     "rapid: escape on UTF-16 strings over all four alphabets, unescape on texts mixing raw characters with %XX, %uXXXX (both hex cases) and near-miss forms; oracle: B.2.1 / B.2.2 transcribed over code units and the law unescape(escape(s)) = s; expected results containing a lone surrogate are compared by length only (representation limit, counted); non-trivial = input has a character outside escape's unescaped set or a % form; distinct by (function, string)",
-	Quick:    8000,
+	Quick:    25000,
 	Thorough: 150000,
 	Gen: func(t *rapid.T) escCase {
 		if rapid.Bool().Draw(t, "esc") {
